@@ -99,9 +99,11 @@ Fixpoint walk (fuel : nat) (m : list (path * dnode)) (cur : path) (comps : list 
     end
   end.
 
-Definition walk_fuel : nat := 256.
+(* one step per component plus room for the components of followed links (the kernel gives up
+   after 40 nested links) *)
+Definition walk_fuel : nat := 64.
 Definition resolve (f : fs) (p : path) (follow : bool) : option path :=
-  walk walk_fuel (names f) [] p follow.
+  walk (length p + walk_fuel) (names f) [] p follow.
 
 (* symlink_metadata / metadata *)
 Definition lstat (f : fs) (p : path) : option dnode :=
